@@ -933,6 +933,54 @@ func run(args []string) error {
 	}
 	hist.Add(fmt.Sprintf("limb-boundary=%d", len(caseJSON["limb"])))
 
+	// ---- chosen raw s: for key d and nonce k the message m = s0*k - r*d makes the un-normalised s equal to a
+	//      chosen s0, placed on the thresholds of every comparison in Sign / Verify / Recover
+	//      ((n-1)/2, (n+1)/2, 2^255-1, 2^255, n-2^255, n-1, 1 and inside the window ((n-1)/2, 2^255))
+	{
+		modN := func(z *big.Int) *big.Int { return new(big.Int).Mod(z, bigN) }
+		lo := new(big.Int).Sub(bigN, big2_255)
+		targets := func() []*big.Int {
+			t := []*big.Int{bi(1), bi(2), add(bigHalf, -1), bigHalf, add(bigHalf, 1), add(bigHalf, 2), add(big2_255, -2), add(big2_255, -1), big2_255, add(big2_255, 1),
+				add(lo, -1), lo, add(lo, 1), add(bigN, -2), add(bigN, -1)}
+			for j := 0; j < 6; j++ { // inside the window
+				w := new(big.Int).Sub(big2_255, bigHalf)
+				z := new(big.Int).Mod(g.rand256(), w)
+				t = append(t, z.Add(z, bigHalf))
+			}
+			return t
+		}
+		rounds := 2 + n/60
+		for j := 0; j < rounds; j++ {
+			d, k := g.validKey(), g.validKey()
+			R := pubOf(k)
+			r := modN(new(big.Int).SetBytes(R[1:]))
+			for _, s0 := range targets() {
+				m := modN(new(big.Int).Sub(new(big.Int).Mul(s0, k), new(big.Int).Mul(r, d)))
+				ret, sg, pan := lowSign(d, m, k)
+				obs := "0"
+				if pan {
+					obs = "panic"
+				} else if ret == 1 {
+					obs = fmt.Sprintf("1 %s %s %x", hn(sg.r), hn(sg.s), sg.recid)
+				}
+				emit("raws", "sign", []string{hn(d), hn(m), hn(k)}, obs, map[string]interface{}{"kind": "chosen raw s", "raw_s": hn(s0)}, true)
+				if ret == 1 && !pan { // what was produced must verify and recover the signer (also at byte level)
+					pk := pubOf(d)
+					sb := sg.bytes()
+					var v int
+					o2 := ""
+					if Guard(func() { v = secp256k1.VerifySignature(b32(m), sb, pk) }) {
+						o2 = "panic"
+					} else {
+						o2 = fmt.Sprint(v)
+					}
+					emit("raws", "vsig", []string{hx(b32(m)), hx(sb), hx(pk)}, o2, map[string]interface{}{"kind": "chosen raw s", "raw_s": hn(s0)}, true)
+				}
+			}
+		}
+		hist.Add(fmt.Sprintf("chosen-raw-s=%d", len(caseJSON["raws"])))
+	}
+
 	// ---- abscissae just below p (x = p - delta, all limbs near their maximum): the combined double scalar
 	//      multiplication of recovery / verification on such points, many random scalars each
 	//      (finding 234fc8ec9: Field.Normalize dropped a carry; ECmult left the curve for r = p-n-0x6cf, recid 2)
